@@ -329,6 +329,47 @@ theorem Db.newQuantity_ok_inv {db : Db} {cat u : Sym} {q : Simple}
       | ok r => rw [hg] at h; cases h; exact ⟨ci, r, rfl, rfl, hg⟩
     · cases h
 
+/-- whatever string a quantity was asked for: the stored unit is a symbol of the table (it passed
+`CheckCategoryUnit`, which knows neither the legacy nor the unknown fallback), the stored category
+is the one given, and the to-base row exists -/
+theorem Db.newQuantity_ok_inv' {db : Db} {cat u : Sym} {q : Simple}
+    (h : db.newQuantity cat u = .ok q) :
+    ∃ ci r, db.catByName cat = some ci ∧ q.cat = cat ∧ db.unitBySym q.unit ≠ none
+      ∧ db.getInfo ci.qtype q.unit true = .ok r := by
+  have key : ∀ (ci : CatRow) (w : Sym), db.catByName cat = some ci → db.categoryUnitValid cat w = true →
+      db.finishQuantity ci cat w = .ok q →
+      ∃ ci r, db.catByName cat = some ci ∧ q.cat = cat ∧ db.unitBySym q.unit ≠ none
+        ∧ db.getInfo ci.qtype q.unit true = .ok r := by
+    intro ci w hc hv hf
+    unfold Db.finishQuantity at hf
+    cases hg : db.getInfo ci.qtype w true with
+    | error e => rw [hg] at hf; cases hf
+    | ok r =>
+      rw [hg] at hf; cases hf
+      refine ⟨ci, r, hc, rfl, ?_, hg⟩
+      intro hn
+      rw [Db.categoryUnitValid_of_not_symbol hn cat] at hv
+      cases hv
+  unfold Db.newQuantity at h
+  cases hc : db.catByName cat with
+  | none => rw [hc] at h; cases h
+  | some ci =>
+    rw [hc] at h
+    simp only at h
+    by_cases hv : db.categoryUnitValid cat u = true
+    · simp only [hv, ↓reduceIte] at h
+      simpa only [hc] using key ci u hc hv h
+    · simp only [hv, Bool.false_eq_true, ↓reduceIte] at h
+      by_cases hl : isLegacy db.legacy u = true
+      · simp only [hl, ↓reduceIte] at h
+        by_cases hv2 : db.categoryUnitValid cat (fixLegacy db.legacy u) = true
+        · simp only [hv2, ↓reduceIte] at h
+          simpa only [hc] using key ci _ hc hv2 h
+        · simp only [hv2, Bool.false_eq_true, ↓reduceIte] at h
+          cases h
+      · simp only [hl, Bool.false_eq_true, ↓reduceIte] at h
+        cases h
+
 theorem Db.fixValid_map_fix {db : Db} (qt : Sym) :
     ∀ vs : List Sym, (∀ v ∈ vs, fixLegacy db.legacy (fixLegacy db.legacy v) = fixLegacy db.legacy v) →
       db.fixValid qt (vs.map (fixLegacy db.legacy)) = db.fixValid qt vs
@@ -336,5 +377,76 @@ theorem Db.fixValid_map_fix {db : Db} (qt : Sym) :
   | v :: vs, h => by
     simp only [List.map_cons, Db.fixValid]
     rw [h v (List.mem_cons_self ..), Db.fixValid_map_fix qt vs (fun w hw => h w (List.mem_cons_of_mem _ hw))]
+
+/-! ### a registration and the alias pairs -/
+
+theorem find_upsertCat (row : CatRow) (n : Sym) : ∀ cs : List CatRow,
+    (upsertCat row cs).find? (·.name == n) =
+      if row.name == n then some row else cs.find? (·.name == n)
+  | [] => by
+    cases hrn : (row.name == n) <;> simp [upsertCat, List.find?, hrn]
+  | c :: cs => by
+    unfold upsertCat
+    by_cases hcr : (c.name == row.name) = true
+    · have e : c.name = row.name := by simpa using hcr
+      rw [if_pos hcr]
+      cases hrn : (row.name == n) with
+      | true => simp [List.find?, hrn]
+      | false =>
+        have : (c.name == n) = false := by rw [e]; exact hrn
+        simp [List.find?, hrn, this]
+    · rw [if_neg hcr]
+      cases hcn : (c.name == n) with
+      | true =>
+        have e : c.name = n := by simpa using hcn
+        have hrn : (row.name == n) = false := by
+          rw [← e]
+          have : ¬ c.name = row.name := by simpa using hcr
+          simpa using fun h' => this h'.symm
+        simp [List.find?, hcn, hrn]
+      | false =>
+        have ih := find_upsertCat row n cs
+        simp only [List.find?, hcn]
+        exact ih
+
+/-- what a successful registration does to the database: one category row is written, nothing else -/
+theorem Db.addCategoryFull_ok_inv {db db' : Db} {name qt : Sym} {valid : Option (List Sym)}
+    {dflt : Option Sym} {caption : Sym} {override : Bool} {dv mn mx : Option Rat} {minx maxx : Bool}
+    (h : db.addCategoryFull name qt valid dflt caption override dv mn mx minx maxx = .ok db') :
+    ∃ row : CatRow, row.name = name ∧ row.qtype = qt ∧ db' = { db with cats := upsertCat row db.cats } := by
+  unfold Db.addCategoryFull at h
+  split at h
+  · cases h
+  · split at h
+    · cases h
+    · split at h
+      · cases h
+      · split at h
+        · cases h
+        · split at h
+          · cases h
+          · split at h
+            · cases h
+            · cases h
+              exact ⟨_, rfl, rfl, rfl⟩
+
+/-- an alias pair stays one after a registration, unless the new category is named like the quantity
+type of the unit and belongs to another type (then `GetInfo`'s "category or quantity type" argument
+changes its meaning) -/
+theorem Db.Alias.after_register {db db' : Db} {l c : Sym} {r : UnitRow} (h : db.Alias l c r)
+    {row : CatRow} (hdb : db' = { db with cats := upsertCat row db.cats })
+    (hname : row.name ≠ r.qtype ∨ row.qtype = r.qtype) : db'.Alias l c r := by
+  subst hdb
+  refine ⟨h.notSym, h.fix, h.row, h.stable, h.only, ?_⟩
+  intro ci hci
+  unfold Db.catByName at hci
+  simp only [find_upsertCat] at hci
+  split at hci
+  · next hn =>
+    cases hci
+    rcases hname with hne | heq
+    · exact absurd (by simpa using hn) hne
+    · exact heq
+  · exact h.typeName ci hci
 
 end Barril
